@@ -176,6 +176,40 @@ Proof. unfold fun_guard. rops. apply merit_is_sum. Qed.
 Lemma merit_nonneg (l : list (R * R * R)) : 0 <= merit_spec l.
 Proof. induction l as [|[[w t] v] l IH]; cbn [merit_spec]; [lra|]. pose proof (pow2_ge_0 (w * (v - t))). lra. Qed.
 
+(** combined statements quoted by Props/C14.v *)
+Theorem scale_roundtrips :
+  (forall x, k_radius_inverse_scale ROps (k_radius_scale ROps x) = x /\ k_radius_scale ROps (k_radius_inverse_scale ROps x) = x)
+  /\ (forall x, k_thickness_inverse_scale ROps (k_thickness_scale ROps x) = x /\ k_thickness_scale ROps (k_thickness_inverse_scale ROps x) = x)
+  /\ (forall x, k_index_inverse_scale ROps (k_index_scale ROps x) = x /\ k_index_scale ROps (k_index_inverse_scale ROps x) = x)
+  /\ (forall k x, (0 <= k)%Z -> k_asphere_inverse_scale ROps (k_asphere_scale ROps x k) k = x
+                               /\ k_asphere_scale ROps (k_asphere_inverse_scale ROps x k) k = x)
+  /\ (forall x, k_conic_inverse_scale ROps (k_conic_scale ROps x) = x /\ k_tilt_inverse_scale ROps (k_tilt_scale ROps x) = x
+                /\ k_decenter_inverse_scale ROps (k_decenter_scale ROps x) = x /\ k_poly_inverse_scale ROps (k_poly_scale ROps x) = x
+                /\ k_base_inverse_scale ROps (k_base_scale ROps x) = x).
+Proof.
+  repeat apply conj; [exact radius_roundtrip | exact thickness_roundtrip | exact index_roundtrip
+                     | exact asphere_roundtrip | exact identity_roundtrips].
+Qed.
+Theorem scale_units :
+  (forall r, k_radius_scale ROps r = radius_units r) /\ (forall t, k_thickness_scale ROps t = thickness_units t)
+  /\ (forall n, k_index_scale ROps n = index_units n) /\ (forall k c, k_asphere_scale ROps c k = asphere_units k c).
+Proof. repeat apply conj; [exact radius_scale_units | exact thickness_scale_units | exact index_scale_units | exact asphere_scale_units]. Qed.
+Theorem faithful_handle :
+  (forall (v : var) (x : R) (s : store), var_ok v -> var_get (var_set v x s) v = x)
+  /\ (forall (v w : var) (x : R) (s : store), vcoord w <> vcoord v -> var_get (var_set v x s) w = var_get s w)
+  /\ (forall (v : var) (x : R), var_ok v -> inverse_of v (scale_of v x) = x /\ scale_of v (inverse_of v x) = x).
+Proof. repeat apply conj; [exact set_get | exact set_get_other | exact scale_inverse]. Qed.
+Theorem bounds_in_value_units :
+  (forall (v : var) (s : store), var_ok v -> (within (bounds_spec v) (var_get s v) <-> raw_within v (s (vcoord v))))
+  /\ (forall v : var, vscaled v = true -> bounds_impl v = bounds_spec v)
+  /\ (forall v : var, match vkind_ v with KRadius | KThickness | KIndex | KAsphere => False | _ => True end ->
+                      bounds_impl v = bounds_spec v).
+Proof. repeat apply conj; [exact bounds_units | exact bounds_impl_scaled | exact bounds_impl_identity]. Qed.
+Theorem merit_function :
+  (forall l : list (R * R * R), @sum_squared ROps l = merit_spec l)
+  /\ (forall l : list (R * R * R), @fun_guard ROps (@sum_squared ROps l) = merit_spec l).
+Proof. split; [exact merit_is_sum | exact fun_is_merit]. Qed.
+
 Lemma Forall2_map_in {A B} (P : A -> B -> Prop) (f : A -> B) (l : list A) :
   Forall2 P l (map f l) -> forall v, In v l -> P v (f v).
 Proof.
@@ -341,6 +375,12 @@ Section Machine.
     induction Hw as [|[b y] tr Hb _ IH]; intros s; [reflexivity|].
     cbn [M_C14.run_trace fold_left]. cbn in Hb. rewrite Hb. apply IH.
   Qed.
+
+  Theorem impl_state tr tr' x xstar s :
+    (length x = n -> Forall (fun e : bool * list R => fst e = false) tr' ->
+     getv vars (optimize_impl upd vars (tr ++ (true, x) :: tr') xstar s) = x)
+    /\ (Forall (fun e : bool * list R => fst e = false) tr -> optimize_impl upd vars tr xstar s = s).
+  Proof. split; [apply impl_state_is_last_parent_eval | apply impl_state_workers_only]. Qed.
 
   (** *** the repaired optimize(): the lens is in the state of the returned solution, for every
       evaluation schedule and every split of the evaluations between parent and workers *)
@@ -533,6 +573,10 @@ Section Pickups.
     intros Hfl H. apply functional_extensionality. apply upd_pickups_dep_gen; auto.
     intros c Hc. apply H. apply pk_target_false; exact Hc.
   Qed.
+  Theorem upd_pickups_hypotheses :
+    (forall (s : store) c, pk_target c = false -> upd_pickups pks s c = s c)
+    /\ (flat pks -> forall s s' : store, (forall c, pk_target c = false -> s c = s' c) -> upd_pickups pks s = upd_pickups pks s').
+  Proof. split; [exact upd_pickups_frame | intros H s s'; apply upd_pickups_dep; exact H]. Qed.
 End Pickups.
 
 (** ** 7. The hypotheses are satisfiable: a singlet whose second radius picks up minus the first,
